@@ -30,6 +30,7 @@ configs = st.fixed_dictionaries({
     "PYTHONIOENCODING": st.sampled_from(["utf-8", "ascii", "latin-1", "ascii:strict", None]),
     "PYTHONWARNINGS": st.sampled_from([None, None, "error", "default"]),
     "PYTHONOPTIMIZE": st.sampled_from([None, None, "1", "2"]),
+    "logging": st.sampled_from([None, None, "DEBUG", "INFO"]),
     "cwd": st.sampled_from(["root", "scratch"]),
     "preimport": st.sampled_from(PREIMPORTS),
 })
@@ -50,6 +51,8 @@ def run_child(task, corpus, config, timeout=120):
         env["PYTHONPATH"] = os.pathsep.join([REPO, ROOT])
         env["PYTHONDONTWRITEBYTECODE"] = "1"
         env["VERIF_PREIMPORT"] = ",".join(config.get("preimport") or [])
+        env["VERIF_LOGGING"] = config.get("logging") or ""
+        env["VERIF_STDOUT"] = config.get("stdout") or ""
         for k, v in (config.get("extra_env") or {}).items():
             env[k] = v
         cwd = "/" if config.get("cwd") == "root" else d
@@ -124,6 +127,9 @@ def _child(task, corpus_file, outf):
         _install_env_recorder(env_reads)
     for m in filter(None, os.environ.get("VERIF_PREIMPORT", "").split(",")):
         __import__(m)
+    if os.environ.get("VERIF_LOGGING"):
+        import logging
+        logging.basicConfig(level=getattr(logging, os.environ["VERIF_LOGGING"]), stream=open(os.devnull, "w"))
     sys.path.insert(0, ROOT)
     from vlib import tagjson
     corpus = tagjson.loads(open(corpus_file, encoding="utf-8").read())
@@ -131,6 +137,25 @@ def _child(task, corpus_file, outf):
     assert os.path.realpath(conda_content_trust.__file__).startswith(os.path.realpath(REPO) + os.sep)
     from conda_content_trust import authentication as A, common as C
     out = []
+    if os.environ.get("VERIF_STDOUT") == "closed":
+        sys.stdout.close()
+    if task == "persist":
+        # corpus: list of JSON documents; each is written with the library, read back raw and through the loader
+        import tempfile
+        d = tempfile.mkdtemp(prefix="persist-")
+        for i, doc in enumerate(corpus):
+            fn = os.path.join(d, "m%d.json" % i)
+            try:
+                with open(fn, "wb") as f:
+                    f.write(b"previous content of the file, longer than nothing\n" * 3)
+                C.write_metadata_to_file(doc, fn)
+                raw = open(fn, "rb").read()
+                back = C.load_metadata_from_file(fn)
+                out.append([hashlib.sha256(raw).hexdigest(), hashlib.sha256(C.canonserialize(back)).hexdigest()])
+            except BaseException as e:
+                out.append(["raise:" + type(e).__name__, ""])
+        import shutil
+        shutil.rmtree(d, ignore_errors=True)
     if task == "ambient":
         import builtins
         pkg = os.path.join(os.path.realpath(REPO), "conda_content_trust") + os.sep
@@ -148,7 +173,9 @@ def _child(task, corpus_file, outf):
             return real_open(file, *a, **kw)
         builtins.open = rec_open
         task = "calls"
-    if task == "canon":
+    if task == "persist":
+        pass
+    elif task == "canon":
         for v in corpus:
             out.append(hashlib.sha256(C.canonserialize(v)).hexdigest())
     elif task == "calls":
